@@ -59,11 +59,9 @@ pub fn arb_term() -> impl Strategy<Value = Term> {
         }
         // known findings that defeat the liveness-flavoured clauses here (learning the peer's close,
         // keep-alive) are excluded by construction: pad_to_mtu (C02 KF: padded ACK-only packets
-        // exhaust the window) and forced key updates (C02 KF: desynchronisation)
+        // exhaust the window)
         x.net.client_tc.pad_to_mtu = false;
         x.net.server_tc.pad_to_mtu = false;
-        x.client.ops.retain(|o| !matches!(o.op, AuxOp::KeyUpdate));
-        x.server.ops.retain(|o| !matches!(o.op, AuxOp::KeyUpdate));
         Term { x, kind, at_us }
     })
 }
